@@ -3,6 +3,7 @@ package rules
 import (
 	"fmt"
 	"go/token"
+	"go/types"
 	"strings"
 
 	"golang.org/x/tools/go/ssa"
@@ -109,7 +110,12 @@ func compileNesting(c *an.Ctx, r *runnerRoles, rule string) {
 		}
 	}
 	if len(phis) == 0 {
-		c.Und(rule, an.Short(ct)+":linking", site.Pos(), "no loop-carried job pointers (first/last) found in the commands loop")
+		// second idiom: the jobs are collected into a slice in compile order and linked afterwards
+		if why, ok := collectThenChain(c, ct, site, inner, isJob); ok {
+			c.OK(rule, an.Short(ct)+":linking", site.Pos(), "%s", why)
+		} else {
+			c.Und(rule, an.Short(ct)+":linking", site.Pos(), "neither loop-carried job pointers (first/last) nor a collect-then-chain construction was recognised in the commands loop: %s", why)
+		}
 		return
 	}
 	// which φ is "last" (gets a .Next store) — decided per row from the effects
@@ -554,4 +560,252 @@ func runIsSynchronous(c *an.Ctx, r *runnerRoles, rule string) {
 	if syncOK {
 		c.OK(rule, an.Short(r.run)+":synchronous", r.run.Pos(), "no go statement between TaskRunner.Run and Executor.Execute (%d functions)", len(reach))
 	}
+}
+
+// collectThenChain recognises the construction
+//
+//	for … { for … { j := CompileCommand(…); jobs = append(jobs, j) } }
+//	return chain(jobs)        // chain: for i := 1; i < len(jobs); i++ { jobs[i-1].Next = jobs[i] }; return jobs[0]
+//
+// and checks what the first/last idiom is checked for: every compiled job is
+// added exactly once, in compile order; consecutive elements are linked
+// exactly once; the head is the first element.
+func collectThenChain(c *an.Ctx, ct *ssa.Function, site *ssa.Call, inner *an.Loop, isJob func(ssa.Value) bool) (string, bool) {
+	p := c.P
+	// (1) one append of the job per iteration, onto the loop-carried slice
+	var acc *ssa.Phi
+	for _, in := range inner.Header.Instrs {
+		phi, ok := in.(*ssa.Phi)
+		if !ok {
+			break
+		}
+		if sl, ok := phi.Type().Underlying().(*types.Slice); ok && an.TypeIs(sl.Elem(), "pkg/executor", "Job") {
+			acc = phi
+		}
+	}
+	if acc == nil {
+		return "no loop-carried slice of jobs", false
+	}
+	ex := &an.Explorer{P: p, NoReturn: noReturn}
+	inner.Bound(ex)
+	ex.Atom = func(v ssa.Value) (an.AVal, bool) {
+		for _, e := range errOf(site) {
+			if v == e {
+				return an.AVal{K: an.ANil}, true
+			}
+		}
+		return an.AVal{}, false
+	}
+	var appended ssa.Value
+	ex.Effect = func(in ssa.Instruction, st *an.State) string {
+		call, ok := in.(*ssa.Call)
+		if !ok {
+			return ""
+		}
+		if b, ok := call.Call.Value.(*ssa.Builtin); ok && b.Name() == "append" {
+			onAcc := false
+			for _, s := range an.ResolveAll(call.Call.Args[0]) {
+				if s == ssa.Value(acc) {
+					onAcc = true
+				}
+			}
+			elems := an.VariadicElems(call.Call.Args[1])
+			if onAcc && len(elems) == 1 && isJob(elems[0]) {
+				appended = call
+				return "append(job)"
+			}
+			if onAcc {
+				return "append(other)"
+			}
+		}
+		return ""
+	}
+	outs := ex.RunFrom(ct, site, nil)
+	for _, o := range outs {
+		if o.End != "stop" {
+			continue
+		}
+		n := 0
+		for _, e := range o.Effects {
+			if e == "append(job)" {
+				n++
+			} else {
+				return "the slice of jobs also receives " + e, false
+			}
+		}
+		if n != 1 {
+			return fmt.Sprintf("a compiled job is appended %d times per iteration, want once", n), false
+		}
+		if v, ok := o.PhiIn[acc]; !ok || v == "keep" {
+			return "the appended slice is not carried to the next iteration", false
+		}
+	}
+	if len(outs) == 0 || appended == nil {
+		return "no path appends the compiled job", false
+	}
+	// (2) what CompileTask returns on success is chain(<that slice>)
+	var chainFn *ssa.Function
+	var chainArg int
+	for _, ret := range an.Returns(ct) {
+		if !an.IsNilConst(an.RetVal(ret, 1)) {
+			continue
+		}
+		found := false
+		for _, s := range an.Sources(an.RetVal(ret, 0)) {
+			call, ok := s.(*ssa.Call)
+			if !ok {
+				continue
+			}
+			callee := call.Call.StaticCallee()
+			if callee == nil || callee.Blocks == nil || an.Outer(callee).Pkg != ct.Pkg {
+				continue
+			}
+			for i, a := range call.Call.Args {
+				for _, as := range append(an.Sources(a), an.ResolveAll(a)...) {
+					if as == ssa.Value(acc) || as == appended {
+						chainFn, chainArg, found = callee, i, true
+					}
+					if ph, ok := as.(*ssa.Phi); ok {
+						for _, ed := range ph.Edges {
+							for _, es := range an.Sources(ed) {
+								if es == ssa.Value(acc) || es == appended {
+									chainFn, chainArg, found = callee, i, true
+								}
+							}
+						}
+					}
+				}
+			}
+		}
+		if !found {
+			return "a successful return does not hand the collected jobs to a linking helper", false
+		}
+	}
+	if chainFn == nil {
+		return "no linking helper", false
+	}
+	X := chainFn.Params[chainArg]
+	// (3) the helper links neighbours: X[i-1].Next = X[i] (or X[i].Next = X[i+1]) for every i
+	var link *ssa.Store
+	an.EachInstr(chainFn, func(in ssa.Instruction) {
+		st, ok := in.(*ssa.Store)
+		if !ok {
+			return
+		}
+		fa, ok := st.Addr.(*ssa.FieldAddr)
+		if !ok || an.AccessPath(fa).LastField() != "Next" {
+			return
+		}
+		link = st
+	})
+	if link == nil {
+		return an.Short(chainFn) + " stores no Next pointer", false
+	}
+	elemOf := func(v ssa.Value) (idx ssa.Value, ok bool) {
+		u, isLoad := v.(*ssa.UnOp)
+		if !isLoad || u.Op != token.MUL {
+			return nil, false
+		}
+		ia, isIA := u.X.(*ssa.IndexAddr)
+		if !isIA || !an.SameValue(ia.X, X) {
+			return nil, false
+		}
+		return ia.Index, true
+	}
+	fa := link.Addr.(*ssa.FieldAddr)
+	i1, ok1 := elemOf(fa.X)
+	i2, ok2 := elemOf(link.Val)
+	if !ok1 || !ok2 {
+		return "the Next store does not connect two elements of the collected slice", false
+	}
+	off := func(v ssa.Value) (ssa.Value, int64) {
+		if bo, ok := v.(*ssa.BinOp); ok {
+			if k, isK := an.ConstInt(bo.Y); isK {
+				switch bo.Op {
+				case token.ADD:
+					return bo.X, k
+				case token.SUB:
+					return bo.X, -k
+				}
+			}
+		}
+		return v, 0
+	}
+	b1, o1 := off(i1)
+	b2, o2 := off(i2)
+	if b1 != b2 || o2-o1 != 1 {
+		return "the Next store does not connect element i with element i+1", false
+	}
+	iv, isPhi := b1.(*ssa.Phi)
+	loop := an.InnermostLoop(an.Loops(chainFn), link.Block())
+	if !isPhi || loop == nil || iv.Block() != loop.Header {
+		return "the linking store is not driven by a loop counter", false
+	}
+	// counter: starts so that the first link is X[0]→X[1], advances by one, runs to the end
+	startOK, stepOK := false, false
+	for k, pred := range loop.Header.Preds {
+		ed := iv.Edges[k]
+		if !loop.Blocks[pred] {
+			if c0, ok := an.ConstInt(ed); ok && c0+o1 == 0 {
+				startOK = true
+			}
+		} else {
+			if eb, eo := off(ed); eb == ssa.Value(iv) && eo == 1 {
+				stepOK = true
+			}
+		}
+	}
+	condOK := false
+	if br, ok := an.BranchOf(loop.Header); ok {
+		if bo, ok := br.If.Cond.(*ssa.BinOp); ok && bo.Op == token.LSS && loop.Blocks[br.True] {
+			lb, lo := off(bo.X)
+			// i+lo < len(X)+ro  with the last linked pair (i+o2) = len-1  ⇔  lo - ro = o2
+			rv, ro := off(bo.Y)
+			if call, ok := rv.(*ssa.Call); ok && lb == ssa.Value(iv) {
+				if b, ok := call.Call.Value.(*ssa.Builtin); ok && b.Name() == "len" && an.SameValue(call.Call.Args[0], X) && lo-ro == o2 {
+					condOK = true
+				}
+			}
+		}
+	}
+	if !startOK || !stepOK || !condOK {
+		return fmt.Sprintf("the linking loop does not visit every neighbouring pair once (start=%v step=%v bound=%v)", startOK, stepOK, condOK), false
+	}
+	// every iteration links (no skipping)
+	ex2 := &an.Explorer{P: p, NoReturn: noReturn}
+	loop.Bound(ex2)
+	ex2.Effect = func(in ssa.Instruction, st *an.State) string {
+		if in == ssa.Instruction(link) {
+			return "link"
+		}
+		return ""
+	}
+	for _, o := range ex2.Run(chainFn, loop.BodyEntry(), loop.Header, nil) {
+		n := 0
+		for _, e := range o.Effects {
+			if e == "link" {
+				n++
+			}
+		}
+		if o.End != "stop" || n != 1 {
+			return "an iteration of the linking loop can skip its link", false
+		}
+	}
+	// (4) the head is the first element
+	headOK := false
+	for _, ret := range an.Returns(chainFn) {
+		for _, s := range an.Sources(an.RetVal(ret, 0)) {
+			if idx, ok := elemOf(s); ok {
+				if k, isK := an.ConstInt(idx); isK && k == 0 {
+					headOK = true
+				} else {
+					return "the helper returns an element other than the first", false
+				}
+			}
+		}
+	}
+	if !headOK {
+		return "the helper does not return the first element as the head", false
+	}
+	return fmt.Sprintf("every compiled job is appended once to the collected slice, which %s links pairwise in order and returns by its first element", an.Short(chainFn)), true
 }
